@@ -245,7 +245,7 @@ func init() {
 		},
 	}
 	plans["C20"] = &plan{
-		rule:        "rounds of N in {2,16,64} goroutines x GOMAXPROCS {2,16}: every goroutine runs its own seeded program on its own objects (Parse with and without reuse of its own object, copy and no-copy, valid and mutated documents on both sides of 8 KiB; ParseND; ParseNDStream with a fragmenting reader and a reuse channel; two traversal routes; Clone + Set* edits; Serialize/Deserialize in a random compression mode with a reused destination), all released together behind a barrier. Oracle 1 (race build): the Go race detector reports nothing. Oracle 2 (plain and race builds): the hash-chained transcript of every goroutine (error-ness, marshalled bytes, typed dumps of traversals, stream contents, round-tripped documents) equals the transcript of the same program run alone beforehand. Cold start: 64 fresh processes (48 plain, 16 race) in which the very first use of a Serializer happens in 4xGOMAXPROCS goroutines at once, each deserializing a zstd-compressed blob written by an earlier process and comparing the document. Programs also deserialize a damaged copy of their own blob now and then (failed decodes must not poison pooled readers). The number of goroutines inside library calls at the same time and the number of overlapping pool-using (compressing) operations are counted. Distinct non-trivial = rounds (programs with >= 2 goroutines inside the library simultaneously are counted in the evidence), by round parameters",
+		rule:        "rounds of N in {2,16,64} goroutines x GOMAXPROCS {2,16}: every goroutine runs its own seeded program on its own objects (Parse with and without reuse of its own object, copy and no-copy, valid and mutated documents on both sides of 8 KiB; ParseND; ParseNDStream with a fragmenting reader and a reuse channel; two traversal routes; Clone + Set* edits; Serialize/Deserialize in a random compression mode with a reused destination), all released together behind a barrier. Oracle 1 (race build): the Go race detector reports nothing. Oracle 2 (plain and race builds): the hash-chained transcript of every goroutine (error-ness, marshalled bytes, typed dumps of traversals, stream contents, round-tripped documents) equals the transcript of the same program run alone beforehand. Cold start: 448 fresh processes (400 plain, 48 race) in which the very first use of a Serializer happens in 4xGOMAXPROCS goroutines at once, each deserializing a zstd-compressed blob written by an earlier process and comparing the document. Programs also deserialize a damaged copy of their own blob now and then (failed decodes must not poison pooled readers). The number of goroutines inside library calls at the same time and the number of overlapping pool-using (compressing) operations are counted. Distinct non-trivial = rounds (programs with >= 2 goroutines inside the library simultaneously are counted in the evidence), by round parameters",
 		assumptions: append([]string{"the race detector only sees Go code: accesses made by the assembly kernels are invisible to it (they touch per-object buffers only)"}, commonAssumptions...),
 		jobs: func(tier string) []*job {
 			return []*job{
@@ -254,9 +254,9 @@ func init() {
 				// through the Go runtime's deadlock report, where a race worker sits until its watchdog
 				{variant: "plain", mode: "main", shards: 8, maxResume: 0, gomaxprocs: 16, weight: 2, memlimit: "3GiB", stage: 1},
 				// one cold-start trial per process life: many short processes
-				{variant: "plain", mode: "coldstart", shards: 48, maxResume: 0, gomaxprocs: 16, weight: 2, stage: 1},
+				{variant: "plain", mode: "coldstart", shards: 400, maxResume: 0, gomaxprocs: 16, weight: 2, stage: 1},
 				{variant: "race", mode: "main", shards: 8, maxResume: 0, gomaxprocs: 16, weight: 4, memlimit: "3GiB", quickTimeout: 15 * time.Minute, stage: 2},
-				{variant: "race", mode: "coldstart", shards: 16, maxResume: 0, gomaxprocs: 16, weight: 2, stage: 2},
+				{variant: "race", mode: "coldstart", shards: 48, maxResume: 0, gomaxprocs: 16, weight: 2, stage: 2},
 			}
 		},
 		require: func(tier string, c, m map[string]int64, s map[string]map[string]struct{}) []string {
